@@ -187,16 +187,82 @@ def rule_exit_status(prog, fixture=False):
     return r
 
 
+def rule_diagnosed_failures(prog, fixture=False):
+    from ..diag import DiagAnalysis
+    r = RuleResult("R-C08-6", "every path of bbcbasic_to_text to a non-zero exit status writes a diagnostic to "
+                   "standard error first (directly or through callees that always diagnose their own failures)",
+                   floor=0 if fixture else 1)
+    da = DiagAnalysis(prog)
+    for f in prog.fn("main", required=not fixture):
+        ok, why = da.classify(f, "diag")
+        r.add("%s::%s" % (f.relfile(), f.qn), "%s:%d" % (f.relfile(), f.line), ok,
+              "all failure points diagnosed" if ok else
+              "exit status 1 can be produced without any message on standard error: " + why)
+    r.info["functions_classified"] = len(da.memo)
+    return r
+
+
+def rule_longindex(prog, fixture=False):
+    r = RuleResult("R-C08-7", "the long-option index that getopt_long fills in only for long options is read only "
+                   "where a long option was matched (or is initialised beforehand)", floor=0)
+    for fn in prog.functions.values():
+        for call in fn.walk():
+            if call.get("k") != "CallExpr" or notpl(call.get("q") or "") != "getopt_long":
+                continue
+            args = call_args(call)
+            if len(args) < 5:
+                continue
+            a = strip_all(args[4])
+            if a is None or a.get("k") != "UnaryOperator" or a.get("op") != "&":
+                continue
+            v = strip_all(a["c"][0])
+            if v.get("k") != "DeclRefExpr":
+                continue
+            did = v["d"]
+            initialised = any(n.get("k") == "VarDecl" and n.get("d") == did and n.get("c") for n in fn.walk())
+            optstr = strip_all(args[2])
+            shorts = (optstr.get("s") or "") if optstr is not None else ""
+            short_vals = set(ord(c) for c in shorts.lstrip("+-:") if c != ":")
+            handlers = {}
+            for sw in fn.walk():
+                if sw.get("k") == "SwitchStmt":
+                    handlers.update(_switch_handlers(fn, sw))
+            in_handler = {}
+            for lab, stmts in handlers.items():
+                for st in stmts:
+                    for x in walk(st):
+                        in_handler.setdefault(x["i"], set()).add(lab)
+            for u in fn.walk():
+                if u.get("k") == "DeclRefExpr" and u.get("d") == did and u is not v:
+                    labs = in_handler.get(u["i"])
+                    key = "%s::%s::%s@%s" % (fn.relfile(), fn.qn, v.get("n"), sorted(map(str, labs)) if labs else "outside")
+                    if initialised:
+                        r.add(key, fn.loc(u), True, "initialised at its declaration")
+                    elif not labs:
+                        r.add(key, fn.loc(u), False, "`%s` is read outside the option handlers, where getopt_long need "
+                              "not have written it: uninitialised value" % v.get("n"))
+                    else:
+                        bad = [l for l in labs if l in short_vals or l in ("default", 63)]
+                        r.add(key, fn.loc(u), not bad, "read only in handlers of long-only options" if not bad else
+                              "`%s` is read in the handler of an option that also has the short form -%s: getopt_long does "
+                              "not set it for short options, so an uninitialised value indexes the option table" %
+                              (v.get("n"), chr(bad[0]) if isinstance(bad[0], int) and 32 < bad[0] < 127 else bad[0]))
+    return r
+
+
 def run(ctx):
     prog = ctx.prog("basic", "N")
     res = [c19.rule_uninit(ctx, ["basic"], rule_id="R-C08-1"),
-           rule_option_tables(prog), rule_exit_status(prog)]
+           rule_option_tables(prog), rule_exit_status(prog), rule_diagnosed_failures(prog), rule_longindex(prog)]
     # the same table rule applies to dfs's global options
     dfs = ctx.prog("dfs", "N")
     r2 = rule_option_tables(dfs)
     r2.rule = "R-C08-2/dfs"
     r2.floor = 1
     res.append(r2)
+    r3 = rule_longindex(dfs)
+    r3.rule = "R-C08-7/dfs"
+    res.append(r3)
     return res
 
 
